@@ -14,7 +14,7 @@ import (
 // C18 — pooled names are unique among concurrent holders.
 
 type c18Op struct {
-	Op   string `json:"op"`   // acq | relp | reln | reln2 | nil | hold
+	Op   string `json:"op"`   // acq | relp | reln | reln2 | nil | nilname | hold
 	Slot int    `json:"slot"` // which of the task's name variables
 	N    int    `json:"n,omitempty"`
 }
@@ -98,7 +98,7 @@ func (c18) Gen(r *Rand, idx int, tier string) interface{} {
 			case c < 16:
 				prog = append(prog, c18Op{Op: "reln", Slot: s})
 			case c < 17:
-				prog = append(prog, c18Op{Op: "nil"})
+				prog = append(prog, c18Op{Op: Pick(r, []string{"nil", "nil", "nilname"})})
 			default:
 				prog = append(prog, c18Op{Op: "hold", N: 1 + r.Intn(3)})
 			}
@@ -223,6 +223,10 @@ func (c18) Run(plan interface{}, schedSeed uint64, replay []simrt.Choice, lenien
 						release(op.Slot, false)
 					case "nil":
 						pool.Release(nil)
+					case "nilname":
+						// releasing nil through the name's own method
+						var none *namepool.Name
+						none.Release()
 					case "hold":
 						for i := 0; i < op.N; i++ {
 							simrt.Yield(0)
